@@ -107,6 +107,9 @@ theorem not_benign_double (k : Kind) (o : Outcome) (post : List Ev)
 @[simp] theorem spend_allowed (s : St) : (spend s).allowed = s.allowed := rfl
 @[simp] theorem addCert_allowed (s : St) (b : Bool) : (addCert s b).allowed = s.allowed := rfl
 @[simp] theorem addRev_allowed (s : St) : (addRev s).allowed = s.allowed := rfl
+@[simp] theorem signed_log (s : St) : (signed s).log = s.log := rfl
+@[simp] theorem signed_d (s : St) : (signed s).d = s.d := rfl
+@[simp] theorem signed_allowed (s : St) : (signed s).allowed = s.allowed := rfl
 
 theorem attempt_eq (e : Env) (s : St) (k : Kind) :
     attempt e s k =
@@ -210,6 +213,7 @@ theorem execDB_next_benign {e : Env} {s s' : St} {k : Kind} (h : execDB e s k = 
     · cases h
   case challengeDone => split at h <;> cases h; exact ⟨[], by simp, rfl⟩
   case arm => cases h; exact ⟨[], by simp, rfl⟩
+  case withData => cases h; exact ⟨[], by simp, rfl⟩
   case notify =>
     obtain ⟨t, ht, _, _, _, hb⟩ := attempt_log e s .notify
     split at h
@@ -265,7 +269,7 @@ theorem execDB_mono {e : Env} {s s' : St} {k : Kind}
     split at h <;> rcases h with h | h <;> cases h <;> simp [hd, ht]
   all_goals
     (repeat' split at h) <;> rcases h with h | h <;> cases h <;>
-      simp [spend, addCert, addRev, call, decide']
+      simp [spend, addCert, addRev, signed, call, decide']
 
 theorem exec_mono {e : Env} {s s' : St} {k : Kind}
     (h : exec e s k = .next s' ∨ exec e s k = .abort s') :
@@ -658,7 +662,7 @@ theorem exec_allowed {e : Env} {s s' : St} {k : Kind} (h : exec e s k = .next s'
     · exact Or.inl rfl
     · exact Or.inl ha
   all_goals
-    (repeat' split at h) <;> cases h <;> simp
+    (repeat' split at h) <;> cases h <;> first | exact Or.inl rfl | simp
 
 /-- **scep_challenge_accepted.** With SCEP challenge webhooks configured, a certificate is
     issued only if some challenge webhook answered `allow` in this very request. -/
@@ -787,8 +791,148 @@ theorem acme_certificate_complete (e : Env) (c : Cfg) (d : Durable) (hdb : e.db 
           (repeat' split at hx) <;> cases hx <;>
             first
               | exact hp
-              | simp_all [spend, addCert, addRev, call, decide']
+              | simp_all [spend, addCert, addRev, signed, call, decide']
     · simp [steps, finalizeSteps, finalizePost, updateOrderSteps]
+
+/-! ### every certificate made is stored -/
+
+theorem attempt_counts (e : Env) (s : St) (k : Kind) :
+    (attempt e s k).2.made = s.made ∧ (attempt e s k).2.unstored = s.unstored ∧ (attempt e s k).2.d = s.d := by
+  rw [attempt_eq]; split <;> exact ⟨rfl, rfl, rfl⟩
+
+/-- certificates made are never "lost from the books": what was signed is either written or
+    still counted as unwritten -/
+theorem exec_counts {e : Env} {s s' : St} {k : Kind} (hdb : e.db = true)
+    (h : exec e s k = .next s' ∨ exec e s k = .abort s') :
+    s.d.certs + s.unstored + s'.made ≤ s'.d.certs + s'.unstored + s.made ∧ s.made ≤ s'.made := by
+  simp only [exec, hdb, Bool.true_eq_false, false_and, if_false] at h
+  cases k <;> simp only [execDB] at h
+  case enrich =>
+    obtain ⟨a, b, c⟩ := attempt_counts e s .enrich
+    split at h <;> rcases h with h | h <;> cases h <;> simp only [webhook_eq] <;> rw [a, b, c] <;> omega
+  case authorize =>
+    obtain ⟨a, b, c⟩ := attempt_counts e s .authorize
+    split at h <;> rcases h with h | h <;> cases h <;> simp only [webhook_eq] <;> rw [a, b, c] <;> omega
+  case challenge =>
+    obtain ⟨a, b, c⟩ := attempt_counts e s .challenge
+    split at h <;> rcases h with h | h <;> cases h <;>
+      (show s.d.certs + s.unstored + (attempt e s .challenge).2.made ≤
+        (attempt e s .challenge).2.d.certs + (attempt e s .challenge).2.unstored + s.made ∧
+        s.made ≤ (attempt e s .challenge).2.made) <;> rw [a, b, c] <;> omega
+  case notify =>
+    obtain ⟨a, b, c⟩ := attempt_counts e s .notify
+    split at h <;> rcases h with h | h <;> cases h
+    · omega
+    · show s.d.certs + s.unstored + (attempt e s .notify).2.made ≤
+        (attempt e s .notify).2.d.certs + (attempt e s .notify).2.unstored + s.made ∧
+        s.made ≤ (attempt e s .notify).2.made
+      rw [a, b, c]; omega
+  all_goals
+    (repeat' split at h) <;> rcases h with h | h <;> cases h <;>
+      simp [spend, addCert, addRev, signed, call, decide'] <;> omega
+
+theorem run_counts (e : Env) (hdb : e.db = true) (ks : List Kind) (s : St) :
+    s.d.certs + s.unstored + (run e ks s).1.made ≤ (run e ks s).1.d.certs + (run e ks s).1.unstored + s.made ∧
+    s.made ≤ (run e ks s).1.made := by
+  induction ks generalizing s with
+  | nil => simp [run]
+  | cons k ks ih =>
+    simp only [run]
+    cases h : exec e s k with
+    | next s' =>
+      obtain ⟨a, b⟩ := exec_counts hdb (Or.inl h)
+      obtain ⟨a', b'⟩ := ih s'
+      show s.d.certs + s.unstored + (run e ks s').1.made ≤ (run e ks s').1.d.certs + (run e ks s').1.unstored + s.made ∧
+        s.made ≤ (run e ks s').1.made
+      exact ⟨by omega, by omega⟩
+    | abort s' => exact exec_counts hdb (Or.inr h)
+
+/-- a step that lets the request continue moves the unwritten count as `pendingStep` says -/
+theorem exec_pending {e : Env} {s s' : St} {k : Kind} (hdb : e.db = true)
+    (h : exec e s k = .next s') : s'.unstored = pendingStep s.unstored k := by
+  simp only [exec, hdb, Bool.true_eq_false, false_and, if_false] at h
+  cases k <;> simp only [execDB] at h
+  case enrich =>
+    obtain ⟨_, b, _⟩ := attempt_counts e s .enrich
+    split at h <;> cases h; simpa [webhook_eq, pendingStep] using b
+  case authorize =>
+    obtain ⟨_, b, _⟩ := attempt_counts e s .authorize
+    split at h <;> cases h; simpa [webhook_eq, pendingStep] using b
+  case challenge =>
+    obtain ⟨_, b, _⟩ := attempt_counts e s .challenge
+    split at h <;> cases h <;> (show (attempt e s .challenge).2.unstored = _) <;> simpa [pendingStep] using b
+  case notify =>
+    obtain ⟨_, b, _⟩ := attempt_counts e s .notify
+    split at h <;> cases h
+    · rfl
+    · show (attempt e s .notify).2.unstored = _
+      simpa [pendingStep] using b
+  all_goals
+    (repeat' split at h) <;> cases h <;> simp [pendingStep, spend, addCert, addRev, signed, call, decide']
+
+theorem run_pending (e : Env) (hdb : e.db = true) (ks : List Kind) (s : St)
+    (hc : (run e ks s).2 = true) : (run e ks s).1.unstored = pending ks s.unstored := by
+  induction ks generalizing s with
+  | nil => simp [run, pending]
+  | cons k ks ih =>
+    simp only [run] at hc ⊢
+    cases h : exec e s k with
+    | abort s' => simp [h] at hc
+    | next s' =>
+      simp only [h] at hc ⊢
+      rw [ih s' hc, exec_pending hdb h]
+      simp [pending]
+
+theorem pending_append (xs ys : List Kind) (u : Nat) : pending (xs ++ ys) u = pending ys (pending xs u) := by
+  simp [pending, List.foldl_append]
+
+theorem pending_replicate (n : Nat) (k : Kind) (u : Nat) (hk : ∀ v, pendingStep v k = v) :
+    pending (List.replicate n k) u = u := by
+  induction n generalizing u with
+  | zero => simp [pending]
+  | succ n ih => simp only [List.replicate_succ, pending, List.foldl_cons, hk]; exact ih u
+
+/-- in every operation each signing step is followed by its store step -/
+theorem steps_pending (op : Op) (c : Cfg) : pending (steps op c) 0 = 0 := by
+  have he : ∀ n u, pending (List.replicate n Kind.enrich) u = u := fun n u => pending_replicate n _ u (fun _ => rfl)
+  have ha : ∀ n u, pending (List.replicate n Kind.authorize) u = u := fun n u => pending_replicate n _ u (fun _ => rfl)
+  have hc : ∀ n u, pending (List.replicate n Kind.challenge) u = u := fun n u => pending_replicate n _ u (fun _ => rfl)
+  have hn : ∀ n u, pending (List.replicate n Kind.notify) u = u := fun n u => pending_replicate n _ u (fun _ => rfl)
+  have hr : ∀ n t u, pending (List.replicate n (Kind.req t)) u = u := fun n t u => pending_replicate n _ u (fun _ => rfl)
+  have hx : ∀ u, pending (signX509Steps c) u = u := by
+    intro u
+    simp only [signX509Steps, pending_append, he, ha]
+    simp [pending, pendingStep]
+  cases op <;>
+    simp only [steps, authorizeSteps, authorizeTokenSteps, signSSHSteps, renewContextSteps, authorizeRenewSteps,
+      storeRenewedSteps, revokeTokenSteps, revokeMTLSSteps, revokeSSHSteps, revokeTokenBase, revokeMTLSBase,
+      renewSSHSteps, rekeySSHSteps, finalizeSteps, finalizePre, finalizePost, finalizeHandlerPre,
+      createCertificateSteps, updateOrderSteps, pkiOperationSteps, signCSRSteps, validateChallengeSteps,
+      signSSHAddUserSteps, identitySteps, crlSteps, pending_append, he, ha, hc, hn, hr, hx] <;>
+    (try split) <;> (try simp only [pending_append, he, ha, hc, hn, hr, hx]) <;> simp [pending, pendingStep]
+
+/-- **every_certificate_recorded.** With a database configured, when the client is handed
+    certificates — one, or the three of the SSH sign handler (user, add-user, identity) —
+    every certificate signed in the request was written by a store call that followed its
+    signing, and the certificate tables grew by at least that many entries. -/
+theorem every_certificate_recorded (e : Env) (op : Op) (c : Cfg) (d : Durable) (hdb : e.db = true)
+    (h : client op (runOp e op c d) = .certificate) :
+    (runOp e op c d).1.unstored = 0 ∧
+    d.certs + (runOp e op c d).1.made ≤ (runOp e op c d).1.d.certs := by
+  unfold client at h
+  cases hc : (runOp e op c d).2 with
+  | false => simp [hc] at h
+  | true =>
+    rw [runOp_ok e op c d hc]
+    rw [runOp_snd] at hc
+    have hp := run_pending e hdb _ (init op d) hc
+    have hu : (init op d).unstored = 0 := rfl
+    rw [hu, steps_pending] at hp
+    obtain ⟨a, _⟩ := run_counts e hdb (steps op c) (init op d)
+    have hm : (init op d).made = 0 := rfl
+    have hd : (init op d).d = d := rfl
+    rw [hu, hm, hd] at a
+    exact ⟨hp, by omega⟩
 
 /-! ### the step lists and the source -/
 
@@ -833,6 +977,11 @@ example : client .sign (runOp allOk .sign (wh 0 0) (runOp { allOk with g := fun 
     certificate is revoked (stored, not acknowledged) -/
 example : let r := runOp { allOk with f := fun n => if n = 6 then .error else .ok } .revoke { e := 0, a := 0, crl := true } {}
     client .revoke r = .error ∧ r.1.d.revoked = true := by decide
+
+/-- the SSH sign handler with add-user key and identity CSR: three certificates, three stores -/
+example : let r := runOp allOk .sshSignFull (wh 1 1) {}
+    client .sshSignFull r = .certificate ∧ r.1.made = 3 ∧ r.1.d.certs = 3 ∧ r.1.d.datas = 1 := by decide
+
 
 /-! SCEP -/
 def scep2 : Cfg := { e := 0, a := 0, ch := 2, n := 1 }
